@@ -11,7 +11,9 @@ import (
 	"verifharness/lib"
 
 	"github.com/ipld/go-ipld-prime/codec"
+	"github.com/ipld/go-ipld-prime/codec/cbor"
 	"github.com/ipld/go-ipld-prime/codec/dagcbor"
+	"github.com/ipld/go-ipld-prime/multicodec"
 	"github.com/ipld/go-ipld-prime/datamodel"
 	"github.com/ipld/go-ipld-prime/node/basicnode"
 )
@@ -23,6 +25,23 @@ func observe(n datamodel.Node, sortmode string, links bool) string {
 	var buf bytes.Buffer
 	before := lib.Dump(n)
 	err := lib.Safely(func() error {
+		switch entryKind {
+		case 1: // the package-level functions registered as the codecs: dag-cbor (rfc order, links) and cbor (no sorting, no links)
+			if links {
+				return dagcbor.Encode(n, &buf)
+			}
+			return cbor.Encode(n, &buf)
+		case 2: // whatever the default multicodec registry hands out for 0x71 / 0x51
+			code := uint64(0x71)
+			if !links {
+				code = 0x51
+			}
+			enc, err := multicodec.LookupEncoder(code)
+			if err != nil {
+				return err
+			}
+			return enc(n, &buf)
+		}
 		return dagcbor.EncodeOptions{AllowLinks: links, MapSortMode: sortNames[sortmode]}.Encode(n, &buf)
 	})
 	if err != nil {
@@ -81,7 +100,17 @@ func (w *failWriter) Write(p []byte) (int, error) {
 	return n, fmt.Errorf("injected write failure")
 }
 
+// entryKind: 0 = EncodeOptions{...}.Encode; 1 = dagcbor.Encode / cbor.Encode; 2 = the encoder registered under 0x71 / 0x51.
+// 1 and 2 are used only with the settings those entry points stand for ("rfc"+links = dag-cbor, "none"+no links = cbor);
+// the record's id then ends in .e1 / .e2, which is all a replay needs.
+var entryKind int
+
 func runCase(out *lib.Out, id string, sortmode string, links bool, holder string, v *lib.Val) {
+	entryKind = 0
+	if strings.HasSuffix(id, ".e1") || strings.HasSuffix(id, ".e2") {
+		entryKind = int(id[len(id)-1] - '0')
+	}
+	defer func() { entryKind = 0 }()
 	var n datamodel.Node
 	err := lib.Safely(func() error {
 		var e error
@@ -196,6 +225,13 @@ func main() {
 		}
 		if i%5 == 0 {
 			runCase(out, base+".u", "rfc", true, "basicuint", v)
+		}
+		if i%4 == 0 { // the registered entry points, as dag-cbor and as plain cbor
+			pv := rng.Permuted(v)
+			runCase(out, base+".d.e1", "rfc", true, "basic", pv)
+			runCase(out, base+".d.e2", "rfc", true, "basic", pv)
+			runCase(out, base+".c.e1", "none", false, "basic", pv)
+			runCase(out, base+".c.e2", "none", false, "basic", pv)
 		}
 		if i%11 == 0 {
 			// state carried across calls: an Encode into a writer that fails part-way must not
